@@ -15,11 +15,13 @@
 -/
 import Proofs.Frame
 import Proofs.Flat
+import Proofs.BaseInv
 
 namespace Measured
 open St
 
-def Good (s : St) : Prop := Canon s ∧ GInv s
+/-- canonical, consistent, and every factor of every unit is a base unit (C13's invariant) -/
+def Good (s : St) : Prop := Canon s ∧ GInv s ∧ BaseInv s
 
 theorem unit!_invalid {s : St} {a : UId} (ha : ¬ a < s.units.length) : s.unit! a = default := by
   unfold unit!
@@ -47,7 +49,7 @@ theorem powUnit_invalid {s : St} (hc : Canon s) {a : UId} (ha : ¬ a < s.units.l
 
 theorem powUnit_good {s : St} (h : Good s) (a : UId) (n : Int) : Good (s.powUnit a n).1 := by
   by_cases ha : a < s.units.length
-  · exact ⟨powUnit_canon h.1 ha n, powUnit_inv h.2.1 ha n, powUnit_reg h.2.2 a n⟩
+  · exact ⟨powUnit_canon h.1 ha n, ⟨powUnit_inv h.2.1.1 ha n, powUnit_reg h.2.1.2 a n⟩, powUnit_baseInv h.2.2 h.1 ha n⟩
   · rw [powUnit_invalid h.1 ha]; exact h
 
 theorem rootUnit_invalid {s : St} (hc : Canon s) {a : UId} (ha : ¬ a < s.units.length) (n : Int) :
@@ -71,7 +73,7 @@ theorem rootUnit_invalid {s : St} (hc : Canon s) {a : UId} (ha : ¬ a < s.units.
 
 theorem rootUnit_good {s : St} (h : Good s) (a : UId) (n : Int) : Good (s.rootUnit a n).1 := by
   by_cases ha : a < s.units.length
-  · exact ⟨rootUnit_canon h.1 ha n, rootUnit_inv h.2.1 ha n, rootUnit_reg h.2.2 a n⟩
+  · exact ⟨rootUnit_canon h.1 ha n, ⟨rootUnit_inv h.2.1.1 ha n, rootUnit_reg h.2.1.2 a n⟩, rootUnit_baseInv h.2.2 h.1 ha n⟩
   · rw [rootUnit_invalid h.1 ha]; exact h
 
 /-! ### `*` is harmless when an operand does not exist -/
@@ -156,15 +158,15 @@ theorem mulUnit_invalid {s : St} (hc : Canon s) {a b : UId} (h : ¬ (a < s.units
 
 theorem mulUnit_good {s : St} (h : Good s) (a b : UId) : Good (s.mulUnit a b).1 := by
   by_cases hv : a < s.units.length ∧ b < s.units.length
-  · exact ⟨mulUnit_canon h.1 hv.1 hv.2, mulUnit_inv h.2.1 hv.1 hv.2, mulUnit_reg h.2.2 a b⟩
+  · exact ⟨mulUnit_canon h.1 hv.1 hv.2, ⟨mulUnit_inv h.2.1.1 hv.1 hv.2, mulUnit_reg h.2.1.2 a b⟩, mulUnit_baseInv h.2.2 h.1 hv.1 hv.2⟩
   · rw [mulUnit_invalid h.1 hv]; exact h
 
 theorem unprefixedUnit_good {s : St} (h : Good s) {a : UId} (ha : a < s.units.length) : Good (s.unprefixedUnit a).1 :=
-  ⟨unprefixedUnit_canon h.1 ha, unprefixedUnit_inv h.2.1 ha, unprefixedUnit_reg h.2.2 a⟩
+  ⟨unprefixedUnit_canon h.1 ha, ⟨unprefixedUnit_inv h.2.1.1 ha, unprefixedUnit_reg h.2.1.2 a⟩, unprefixedUnit_baseInv h.2.2 ha⟩
 
 theorem divUnit_good {s : St} (h : Good s) {a b : UId} (ha : a < s.units.length) (hb : b < s.units.length) :
     Good (s.divUnit a b).1 :=
-  ⟨divUnit_canon h.1 ha hb, divUnit_inv h.2.1 ha hb, divUnit_reg h.2.2 a b⟩
+  ⟨divUnit_canon h.1 ha hb, ⟨divUnit_inv h.2.1.1 ha hb, divUnit_reg h.2.1.2 a b⟩, divUnit_baseInv h.2.2 h.1 ha hb⟩
 
 /-! ### `Kept`: the closure of "leaves a good table good" under the constructs of the planner -/
 
@@ -634,7 +636,7 @@ theorem QOp.after_good (c : Conv Rat) (hg : Good c.st) (o : QOp) (ho : o.ok c) :
   | le a b => exact ((keptV_le a b).keep c ⟨hg, ho.1, ho.2⟩).1
   | gt a b => exact ((keptV_gt a b).keep c ⟨hg, ho.1, ho.2⟩).1
   | ge a b => exact ((keptV_ge a b).keep c ⟨hg, ho.1, ho.2⟩).1
-  | units ops => exact ⟨run_canon hg.2 hg.1 ops, run_ginv hg.2 ops⟩
+  | units ops => exact ⟨run_canon hg.2.1 hg.1 ops, run_ginv hg.2.1 ops, run_baseInv hg.2.1 hg.1 hg.2.2 ops⟩
 
 /-- every query of the history is asked about units that exist when it is asked -/
 def ValidHistory : Conv Rat → List QOp → Prop
@@ -644,8 +646,9 @@ def ValidHistory : Conv Rat → List QOp → Prop
 /-- **The interning invariants survive every history of queries**: after any sequence of conversions, comparisons,
     sums, differences, products, quotients, powers, roots and unit operations — each asked about units that exist
     at that moment, each ending however it ends, value or exception, through any branch of the factor planner —
-    the unit table is canonical (`Canon`: C02's one-object-per-denotation) and consistent (`GInv`: C01's
-    dimension = product of the factors' dimensions, and the registries' shape). -/
+    the unit table is canonical (`Canon`: C02's one-object-per-denotation), consistent (`GInv`: C01's
+    dimension = product of the factors' dimensions, and the registries' shape) and every factor is a base unit
+    (`BaseInv`: what C13's rendering theorem needs). -/
 theorem queries_good : ∀ (ops : List QOp) (c : Conv Rat), Good c.st → ValidHistory c ops →
     Good (ops.foldl QOp.after c).st := by
   intro ops
